@@ -50,6 +50,14 @@ func c03Run(dir, version string, maxLen int) vs.Verdict {
 // the peer back under its own context - what a roots/list_changed handler calling ListRoots or a
 // list_changed handler re-listing does - and only then parks on its gate: it is still the running
 // handler of a notification, so nothing later may start.
+var c03Background bool
+
+func c03RunBackground(dir, version string, maxLen int) vs.Verdict {
+	c03Background = true
+	defer func() { c03Background = false }()
+	return c03RunNested(dir, version, maxLen, false)
+}
+
 func c03RunNested(dir, version string, maxLen int, nested bool) vs.Verdict {
 	f := &e1Fail{prefix: "c03 " + dir}
 	if nested {
@@ -68,7 +76,13 @@ func c03RunNested(dir, version string, maxLen int, nested bool) vs.Verdict {
 	}
 	seq := seqs[vs.Choose("sequence", len(seqs), 0)]
 	ctl := vs.NewController()
-	gates := make([]*vs.Gate, len(seq))
+	// c03Background: another goroutine has a call of its own in flight (handler parked on a gate like the
+	// others, index len(seq)) when the sender starts; it ends whenever the controller lets it
+	nGates := len(seq)
+	if c03Background {
+		nGates++
+	}
+	gates := make([]*vs.Gate, nGates)
 	for i := range gates {
 		gates[i] = ctl.Gate(fmt.Sprint(i))
 	}
@@ -159,6 +173,20 @@ func c03RunNested(dir, version string, maxLen int, nested bool) vs.Verdict {
 		}
 		vs.Quiet(false)
 	}
+	bgDone := make(chan struct{})
+	if c03Background {
+		vs.Go(func() {
+			defer close(bgDone)
+			if dir == "c2s" {
+				p.cs.CallTool(ctx, &CallToolParams{Name: "t", Arguments: c03Args{K: len(seq)}})
+			} else {
+				p.ss.CreateMessage(ctx, &CreateMessageParams{SystemPrompt: fmt.Sprintf("k=%d", len(seq)), MaxTokens: 1})
+			}
+		})
+		vs.WaitIdle() // the background call's handler is parked
+	} else {
+		close(bgDone)
+	}
 	for i, op := range seq {
 		var err error
 		switch {
@@ -191,6 +219,7 @@ func c03RunNested(dir, version string, maxLen int, nested bool) vs.Verdict {
 			f.failf("final-ping", "final ping failed: %v", err)
 		}
 	}
+	<-bgDone
 	p.cs.Close()
 	p.ss.Wait()
 	ctl.Stop()
@@ -720,6 +749,8 @@ func TestVerifC03(t *testing.T) {
 		vs.E1(t, "inmem/s2c/2025-06-18", b, vs.Options{}, func() vs.Verdict { return c03Run("s2c", "2025-06-18", 3) }),
 		vs.E1(t, "inmem/c2s/nested-calls-in-notification-handlers", b, vs.Options{}, func() vs.Verdict { return c03RunNested("c2s", "2025-06-18", env.Pick(2, 3), true) }),
 		vs.E1(t, "inmem/s2c/nested-calls-in-notification-handlers", b, vs.Options{}, func() vs.Verdict { return c03RunNested("s2c", "2025-06-18", env.Pick(2, 3), true) }),
+		vs.E1(t, "inmem/c2s/another-call-in-flight", b, vs.Options{}, func() vs.Verdict { return c03RunBackground("c2s", "2025-06-18", env.Pick(2, 3)) }),
+		vs.E1(t, "inmem/s2c/another-call-in-flight", b, vs.Options{}, func() vs.Verdict { return c03RunBackground("s2c", "2025-06-18", env.Pick(2, 3)) }),
 		vs.E1(t, "inmem/fan-out-to-two-sessions/server", b, vs.Options{}, func() vs.Verdict { return c03FanOut("server") }),
 		vs.E1(t, "inmem/fan-out-to-two-sessions/client", b, vs.Options{}, func() vs.Verdict { return c03FanOut("client") }),
 		vs.E1(t, "inmem/concurrent-calls", b, vs.Options{}, func() vs.Verdict { return c03Concurrent("2025-06-18") }),
